@@ -55,6 +55,9 @@ func (c *Ctx) envForFrame(st *State, fr *Frame) *specEnv {
 		if v, ok := fr.regs[p]; ok {
 			env.vars[p.Name()] = specVal{t: c.toTerm(st, v), typ: p.Type()}
 			env.vars[fmt.Sprintf("$%d", i)] = env.vars[p.Name()]
+			// entry_<param>: the value the parameter had when the function was called (the plain name
+			// follows later assignments to the parameter)
+			env.vars["entry_"+p.Name()] = env.vars[p.Name()]
 		}
 	}
 	for _, fv := range fn.FreeVars {
